@@ -154,7 +154,6 @@ theorem populate_norm (typ : String) (ps ps' : List Pat) (h : normPL ps = normPL
   unfold populate
   cases classify typ with
   | tyinfo => simp [PRel]
-  | unsupported => simp [PRel]
   | unknown => simp [PRel]
   | orC => simp only [PRel, normP, h]
   | anyC =>
